@@ -1,8 +1,13 @@
 package props
 
 import (
+	"bufio"
+	"bytes"
 	"encoding/json"
 	"fmt"
+	"io"
+	"net"
+	"net/http"
 	"net/url"
 	"sort"
 	"strings"
@@ -125,7 +130,11 @@ func restInput(f map[string]any) ref.Input {
 	return in
 }
 
-func judgeREST(c *Ctx, srv *server, k restCase) {
+func judgeREST(c *Ctx, srv *server, k restCase) { judgeRESTWith(c, srv, k, nil, 0, 0) }
+
+// judgeRESTWith judges a well-formed request; with pre == nil it sends the request itself, otherwise pre is the answer
+// already obtained for it by another transport (a pipelined connection) between the instants pt0 and pt1.
+func judgeRESTWith(c *Ctx, srv *server, k restCase, pre *httpResult, pt0, pt1 int64) {
 	r := c.R
 	var body []byte
 	if k.F != nil {
@@ -141,9 +150,15 @@ func judgeREST(c *Ctx, srv *server, k restCase) {
 	if k.Query != "" {
 		path += "?" + k.Query
 	}
-	t0 := time.Now().Unix()
-	res := srv.doFramed(k.Method, path, body, k.Fresh, 60*time.Second, k.Framing)
-	t1 := time.Now().Unix()
+	var res httpResult
+	var t0, t1 int64
+	if pre != nil {
+		res, t0, t1 = *pre, pt0, pt1
+	} else {
+		t0 = time.Now().Unix()
+		res = srv.doFramed(k.Method, path, body, k.Fresh, 60*time.Second, k.Framing)
+		t1 = time.Now().Unix()
+	}
 	r.Eval(1)
 	r.Count("requests:"+k.EP, 1)
 	r.Nontrivial(k.EP + "|" + string(body) + "|" + k.Query)
@@ -851,6 +866,114 @@ func c18CrossEndpoint(c *Ctx, srv *server, n int) {
 	}
 }
 
+// c18Pipelined: "arbitrary sequences of requests on reused connections": several different well-formed requests are
+// written back to back on one TCP connection without waiting for the answers (HTTP/1.1 pipelining, the bytes cut into
+// segments at seeded places), then the answers are read in order and the i-th is judged as the answer to the i-th
+// request by the same oracle. A server may close a connection whenever it likes: requests left without an answer are
+// counted and sent again on their own (and judged then); an answer that belongs to another request of the pipeline,
+// or a damaged one, is what this looks for.
+func c18Pipelined(c *Ctx, srv *server, cases []restCase) {
+	r := c.R
+	rng := c.RNG.Fork(1818)
+	for at := 0; at < len(cases); {
+		depth := 2 + rng.Intn(15)
+		if at+depth > len(cases) {
+			depth = len(cases) - at
+		}
+		part := cases[at : at+depth]
+		at += depth
+		var wire bytes.Buffer
+		for _, k := range part {
+			var body []byte
+			if k.F != nil {
+				body = jsonBody(k.F)
+			}
+			if k.RawBody != "" {
+				body = []byte(k.RawBody)
+			}
+			path := "/" + k.EP
+			if k.RawPath != "" {
+				path = k.RawPath
+			}
+			if k.Query != "" {
+				path += "?" + k.Query
+			}
+			fmt.Fprintf(&wire, "%s %s HTTP/1.1\r\nHost: %s\r\n", k.Method, path, srv.addr)
+			if body != nil {
+				fmt.Fprintf(&wire, "Content-Type: application/json\r\nContent-Length: %d\r\n", len(body))
+			}
+			wire.WriteString("\r\n")
+			wire.Write(body)
+		}
+		conn, err := net.DialTimeout("tcp", srv.addr, 10*time.Second)
+		if err != nil {
+			r.Count("pipelines_not_connected", 1)
+			for _, k := range part {
+				judgeREST(c, srv, k)
+			}
+			continue
+		}
+		conn.SetDeadline(time.Now().Add(120 * time.Second))
+		t0 := time.Now().Unix()
+		// the bytes go out in segments cut at seeded places (sometimes one segment, sometimes many small ones)
+		var cuts []int
+		if rng.Intn(3) > 0 {
+			for pos := 0; pos < wire.Len(); {
+				pos += 1 + rng.Intn(1+wire.Len()/(1+rng.Intn(12)))
+				cuts = append(cuts, pos)
+			}
+		}
+		go func(b []byte, cuts []int) {
+			prev := 0
+			for _, cut := range append(cuts, len(b)) {
+				if cut > len(b) {
+					cut = len(b)
+				}
+				if cut <= prev {
+					continue
+				}
+				if _, err := conn.Write(b[prev:cut]); err != nil {
+					return
+				}
+				prev = cut
+			}
+		}(append([]byte(nil), wire.Bytes()...), cuts)
+		br := bufio.NewReader(conn)
+		answers := make([]*httpResult, len(part))
+		for i := range part {
+			resp, err := http.ReadResponse(br, nil)
+			if err != nil {
+				break
+			}
+			b, rerr := io.ReadAll(resp.Body)
+			resp.Body.Close()
+			if rerr != nil {
+				break
+			}
+			answers[i] = &httpResult{Status: resp.StatusCode, Header: resp.Header, Body: b}
+			if resp.Close {
+				break
+			}
+		}
+		t1 := time.Now().Unix()
+		conn.Close()
+		r.Count("pipelines", 1)
+		for i, k := range part {
+			if answers[i] == nil || answers[i].Status == 429 {
+				r.Count("pipelined_requests_left_unanswered_and_sent_again", 1)
+				judgeREST(c, srv, k)
+				continue
+			}
+			r.Count("pipelined_requests_answered", 1)
+			k.Note += fmt.Sprintf(" [request %d of a pipeline of %d]", i+1, len(part))
+			judgeRESTWith(c, srv, k, answers[i], t0, t1)
+		}
+	}
+	if r.Counter("pipelines") > 0 && r.Counter("pipelined_requests_answered") == 0 {
+		r.Inconclusive("pipelined requests: none was answered on its pipeline")
+	}
+}
+
 func runC18On(c *Ctx, binEnv string, n int, conc []int) {
 	var env []string
 	if strings.Contains(binEnv, "RACE") {
@@ -871,6 +994,7 @@ func runC18On(c *Ctx, binEnv string, n int, conc []int) {
 		c.R.Count(fmt.Sprintf("phase_client_goroutines=%d", g), len(part))
 	}
 	c18CrossEndpoint(c, srv, n/20)
+	c18Pipelined(c, srv, c18Cases(c, n/8+40))
 	if !srv.alive() {
 		c.R.Violate("C18|server|died|", "the server process exited during the well-formed workload", "none", nil, "alive", "exited; see server log")
 	}
